@@ -1,7 +1,9 @@
 ENGINES = [
+    {"name": "symtext", "path": "verif/symtext.py", "serves_properties": ["C16"],
+     "kind_free_text": "symbolic text: formatted symbolic numbers become placeholder strings of the exact printed length (explorer forks on sign and digit count, LRA), so the real string code slices/splits real text; float()/int() of a token that is not one whole written field fails"},
     {"name": "crosshair", "path": "verif/chx.py", "serves_properties": ["C17"],
      "kind_free_text": "CrossHair 0.0.110 (symbolic execution of Python with z3) on PEP-316 contracts that call the real functions; one process per condition; 'Confirmed over all paths' = holds within the stated bounds, anything else but a replayed counterexample = inconclusive"},
-    {"name": "symx", "path": "verif/symx.py", "serves_properties": ["C03", "C11", "C12", "C17", "C18"],
+    {"name": "symx", "path": "verif/symx.py", "serves_properties": ["C03", "C11", "C12", "C16", "C17", "C18"],
      "kind_free_text": "concolic execution of the real chmpy Python on z3 Real/Int terms (numpy names rebound to shims), DFS path forking, z3 5.1 decides each assertion"},
 ]
 NOTES = ("Solver-based checking of the real code. Every check regenerates its encoding from /repo's working tree at run time. "
@@ -33,4 +35,8 @@ CHECKS["C02"] = dict(engine="real code on the finite table + z3 (LRA/IsInt, quan
     technique="complete ground evaluation of the 530 tabulated settings through the real SpaceGroup code; z3 decides equality of actions on a symbolic point modulo the lattice",
     text="The domain is the finite bundled table, so the verdicts (identity, uniqueness, closure, inverses, centrosymmetric flag, lookup by full list and by LATT+SYMM) are ground instances computed by the real code for all 530 settings - equivalent to complete enumeration. The solver part shows, for sampled compositions/inverses and the reduce->expand images of every setting, that the matched group element has the same action on a symbolic point for all x modulo Z^3.",
     note="The family adds no leverage over enumeration for the table itself (stated in DESIGN C02); composition is computed from SymmetryOperation.apply on basis points.")
+CHECKS["C16"] = dict(engine="symx + symtext",
+    technique="symbolic execution of the real XYZ/SDF writers and readers on symbolic coordinates, counts and bond indices; field lengths decided per sign/digit-count class (path forking pruned by z3 LRA/LIA)",
+    text="Molecule.to_sdf_string -> parse_sdf_contents -> Molecule.from_sdf_dict and to_xyz_string -> parse_xyz_string run on symbolic coordinates; every feasible sign/digit-count class of the coordinate triple (729 for SDF's range, 1000-2744 for XYZ) is explored and on each the readers must recover each value from its own whole field in the V2000 columns; counts and bond lines for all counts/indices 0..999; 1-3 records with and without bond blocks.",
+    note="CPython's formatting is modelled (length and rounding of '{:W.Pf}'/'{:Wd}'), validated against CPython at run start; bond perception is numeric and not encoded; 1-2 atoms per record (lines are formatted independently).")
 NOT_APPLICABLE = [{"property_id": p, "reason": "check not yet implemented in this round (planned, see DESIGN.md section 3)"} for p in ALL if p not in CHECKS]
